@@ -84,7 +84,24 @@ impl ast::UnOpKind {
     }
 }
 
+pub fn division_by_zero_error(span: crate::pos::Span) -> crate::diagnostic::Diagnostic {
+    error!(
+        message("const evaluation error"),
+        primary(span, "division by zero"),
+    )
+}
+
 impl ast::BinOpKind {
+    /// Like [`Self::const_eval`], but returns `None` for operations that have no defined value
+    /// (integer division or remainder by zero) instead of panicking.
+    pub fn checked_const_eval(&self, a: ScalarValue, b: ScalarValue) -> Option<ScalarValue> {
+        match (self, &b) {
+            (token![binop /], ScalarValue::Int(0)) |
+            (token![binop %], ScalarValue::Int(0)) => None,
+            _ => Some(self.const_eval(a, b)),
+        }
+    }
+
     pub fn const_eval(&self, a: ScalarValue, b: ScalarValue) -> ScalarValue {
         match (a, b) {
             (ScalarValue::Int(a), ScalarValue::Int(b)) => match self {
@@ -233,7 +250,10 @@ impl ast::VisitMut for Visitor<'_, '_> {
 
             ast::Expr::BinOp(a, op, b) => {
                 if let (Some(a_value), Some(b_value)) = (a.to_const(), b.to_const()) {
-                    e.value = op.const_eval(a_value, b_value).into();
+                    match op.checked_const_eval(a_value, b_value) {
+                        Some(value) => e.value = value.into(),
+                        None => self.errors.set(self.ctx.emitter.emit(division_by_zero_error(e.span))),
+                    }
                 };
             },
 
